@@ -1,10 +1,11 @@
 import RdsProofs.Reach
 import RdsProofs.CellsProofs
+import RdsProofs.RefineProofs
 import RdsProofs.LinkProofs
 /-!
 # Property C08 — RadioText A/B protocol: switch empties the new buffer, noisy flags are ignored
 
-`C08` = `chkCells` for every history, where `expectedText` encodes the protocol: `switchDiscard` (error-free block B,
+`C08` = `chkC08` for every history (other buffer untouched; selected buffer emptied first exactly on a switch; noisy groups change no RT cell), a consequence of the closed form `expectedText`, which encodes the protocol: `switchDiscard` (error-free block B,
 flag differs from the last one seen, last one known, selected buffer holds something) empties the selected buffer first;
 `rtNoisy` (block B has errors, flag differs from the last one seen) leaves every RT cell as it was; the buffer of the other
 flag is never addressed. The monitor's `lastFlag` is the flag of the most recent type-2 group with error-free block B since
@@ -19,9 +20,9 @@ namespace RDS
 
 /-- C08 for every history and every next call -/
 theorem C08 (tb : Tabs) (h : EccOk tb) (ops : List Op) (op : Op) :
-    chkCells tb.cfg (monAfter tb.cfg ops) (recOf tb.cfg (run tb.cfg ops) op) = true := by
+    chkC08 (monAfter tb.cfg ops) (recOf tb.cfg (run tb.cfg ops) op) = true := by
   have hr := reach tb h ops
-  exact chkCells_ok tb _ _ op hr.1 hr.2
+  exact chkC08_ok tb _ _ op hr.1 hr.2
 
 /-- every cell a type-2 group addresses lies in the buffer selected by its flag -/
 theorem addressed_type2_text (g : Group) (h2 : g.type = 2) : ∀ a ∈ addressed g, a.1 = 1 + g.b / 16 % 2 := by
